@@ -184,6 +184,8 @@ static void table_mutations(const Enc& e, Rng& r, std::vector<TMut>& out) {
       if (&f != last) continue;
       Bytes m = e.out; if (f.len == 1) { m[f.off] = (uint8_t)((m[f.off] + 1) & 0x7f); } else m[f.off + 1] ^= 0x01; out.push_back({m, "table hash changed (same length)", true});
       if (f.len > 1) { Bytes m2 = e.out; m2[f.off + f.len - 1] ^= 0x80; out.push_back({m2, "table hash high bit flipped", true}); }
+      // the hash value 0 (what NOP_TABLE without a namespace declares) is a hash like any other, not a wildcard
+      { Bytes m0 = e.out; bool was0 = true; for (size_t i = (f.len == 1 ? 0 : 1); i < f.len; i++) { if (m0[f.off + i]) was0 = false; m0[f.off + i] = 0; } if (!was0) out.push_back({m0, "table hash set to 0 (same length)", true}); }
     }
     // ---- byte flips inside entry values (same length): the reference decides what they make of the table
     for (size_t i = 0; i < k; i++) { const EntrySpan& s = g.ents[i]; size_t vl = s.end_off - s.val_off; for (int t = 0; t < 3 && vl; t++) { Bytes m = e.out; size_t p = s.val_off + r.below(vl); static const uint8_t pb[] = {0xff, 0x80, 0x83, 0x87, 0xb5, 0xb9, 0xba, 0xbc, 0xbd, 0xbe, 0xbf, 0x00}; m[p] = pb[r.below(12)]; out.push_back({m, fmt("byte inside the value of entry %zu corrupted", i), false}); } }
